@@ -44,10 +44,11 @@ LEVEL = "model_checking"
 MAX_N = 4
 MAX_W = 3
 LETTERS = ("one", "two", "slow", "syn", "lex", "empty")
-ALL_LETTERS = LETTERS + ("ws1", "ws2", "dup", "tup")
+ALL_LETTERS = LETTERS + ("ws1", "ws2", "dup", "tup", "bad2a", "bad2b")
 # lists over the extra letters (texts that are equal up to white space / equal under different names)
 EXTRA_LISTS = (("ws1", "ws2"), ("ws2", "ws1"), ("ws1", "ws1"), ("ws1", "ws2", "ws1"), ("ws2", "one", "ws1"), ("one", "dup"), ("dup", "one"), ("one", "dup", "one"), ("lex", "ws2", "ws1"),
-               ("tup",), ("tup", "one"), ("two", "tup"), ("syn", "tup"), ("tup", "lex", "tup"))
+               ("tup",), ("tup", "one"), ("two", "tup"), ("syn", "tup"), ("tup", "lex", "tup"),
+               ("bad2a",), ("bad2b",), ("bad2a", "bad2b"), ("one", "bad2b", "two"), ("bad2a", "syn", "lex"))
 TASK_TIMEOUT = float(os.environ.get("VERIF_C18_TASK_TIMEOUT", "60"))  # one parse_single takes 0.2-0.5 s
 REAL_TIMEOUT = float(os.environ.get("VERIF_C18_REAL_TIMEOUT", "90"))  # one Parser.parse with the real pool takes ~1 s
 SEQ_TIMEOUT = float(os.environ.get("VERIF_C18_SEQ_TIMEOUT", "150"))  # one subtree of the sequential reference (<= 43 parse_single calls)
@@ -107,10 +108,13 @@ def setup():
         "dup": ("A2_add_again", list(corpus["A2_add"])),
         # the parts of a two-part behaviour given as a tuple, the way PreprocessorHexagon.split_compounds returns them
         "tup": ("parts_as_tuple", tuple(corpus["J4_cmpeqi_tp0_jump_nt"])),
+        # both parts broken, in different ways: the entry reports the failure of the first part (where sequential parsing stops)
+        "bad2a": ("both_broken_char_first", ["{ RdV = $; }", "{ RdV = RsV; "]),
+        "bad2b": ("both_broken_eof_first", ["{ RdV = RsV; ", "{ RdV = $; }"]),
     }
     _S.update(P=P, Conf=Conf, grammar=grammar, alpha=alpha, orig_pool=P.Pool, lark=lark, ref_parser=lark.Lark(grammar, start="fbody", parser="earley"), ref_parts={})
     shape = {k: ref_parts(tuple(v[1])) for k, v in alpha.items()}
-    want = {"one": (1, None), "two": (2, None), "slow": (1, None), "syn": (0, "UnexpectedEOF"), "lex": (0, "UnexpectedCharacters"), "empty": (1, None), "ws1": (1, None), "ws2": (1, None), "dup": (1, None), "tup": (2, None)}
+    want = {"one": (1, None), "two": (2, None), "slow": (1, None), "syn": (0, "UnexpectedEOF"), "lex": (0, "UnexpectedCharacters"), "empty": (1, None), "ws1": (1, None), "ws2": (1, None), "dup": (1, None), "tup": (2, None), "bad2a": (0, "UnexpectedCharacters"), "bad2b": (0, "UnexpectedEOF")}
     if shape["ws1"][0] == shape["ws2"][0]:
         raise core.HarnessError("the two white-space twins parse to the same tree under this grammar")
     got = {k: (len(v[0]), v[1]) for k, v in shape.items()}
